@@ -304,12 +304,12 @@ PoolOfEvent(pre, e) ==
   IF Has(e.args, "pool") THEN APool(e)
   ELSE IF Has(e.args, "pos") /\ APos(e) \in DOMAIN pre.pos THEN pre.pos[APos(e)].pool ELSE "none"
 
-AccrualDropped(pool, i, now) == WrapMod \preceq ((now -- pool.rewardTs) \otimes pool.rewards[i].emissions)
+\* (WpMath!RewardAccrues / RewardGrowthDelta are shared with the toy-scale model Rewards.tla)
 Accrues(pool, i, now) ==
-  pool.rewards[i].init /\ ~(pool.liq \doteq 0) /\ ~((now -- pool.rewardTs) \doteq 0) /\ ~AccrualDropped(pool, i, now)
+  pool.rewards[i].init /\ RewardAccrues(now -- pool.rewardTs, pool.rewards[i].emissions, pool.liq)
 AccruedGrowth(pool, i, now) ==
   IF Accrues(pool, i, now)
-  THEN WAdd(pool.rewards[i].growth, BDiv((now -- pool.rewardTs) \otimes pool.rewards[i].emissions, pool.liq))
+  THEN WAdd(pool.rewards[i].growth, RewardGrowthDelta(now -- pool.rewardTs, pool.rewards[i].emissions, pool.liq))
   ELSE pool.rewards[i].growth
 
 C11Accrual(pre, e, post) ==
